@@ -8,6 +8,7 @@ import (
 	"bytes"
 	"fmt"
 	"math"
+	"math/big"
 	"strconv"
 	"strings"
 	"unicode/utf8"
@@ -750,8 +751,6 @@ func indexInt(values []int, want int) int {
 }
 
 func round(x float64, prec int) float64 {
-	// From gonum's floats.RoundEven.
-	// https://github.com/gonum/gonum/tree/master/floats
 	if x == 0 {
 		// Make sure zero is returned
 		// without the negative bit set.
@@ -761,36 +760,40 @@ func round(x float64, prec int) float64 {
 	if prec >= 0 && x == math.Trunc(x) {
 		return x
 	}
-	pow := math.Pow10(prec)
-	intermed := x * pow
-	if math.IsInf(intermed, 0) {
+	if math.IsNaN(x) || math.IsInf(x, 0) || prec > 400 {
 		return x
 	}
-	if isHalfway(intermed) {
-		correction, _ := math.Modf(math.Mod(intermed, 2))
-		intermed += correction
-		if intermed > 0 {
-			x = math.Floor(intermed)
-		} else {
-			x = math.Ceil(intermed)
-		}
-	} else {
-		if x < 0 {
-			x = math.Ceil(intermed - 0.5)
-		} else {
-			x = math.Floor(intermed + 0.5)
-		}
+	if prec < 0 {
+		prec = 0
 	}
 
-	if x == 0 {
+	// Round the shortest decimal representation of x (i.e.
+	// the number as JSONata prints it) half to even, using
+	// exact decimal arithmetic. Scaling by a power of ten in
+	// floating point is not exact: 0.00015 * 1e4 is
+	// 1.4999999999999998, which is no longer a tie.
+	r, ok := new(big.Rat).SetString(strconv.FormatFloat(x, 'f', -1, 64))
+	if !ok {
+		return x
+	}
+
+	scale := new(big.Rat).SetInt(new(big.Int).Exp(big.NewInt(10), big.NewInt(int64(prec)), nil))
+	r.Mul(r, scale)
+
+	// DivMod implements Euclidean division so the remainder
+	// is never negative.
+	q, m := new(big.Int).DivMod(r.Num(), r.Denom(), new(big.Int))
+	switch cmp := m.Lsh(m, 1).Cmp(r.Denom()); {
+	case cmp > 0, cmp == 0 && q.Bit(0) == 1:
+		q.Add(q, big.NewInt(1))
+	}
+
+	r.SetInt(q)
+	r.Quo(r, scale)
+
+	res, _ := r.Float64()
+	if res == 0 {
 		return 0
 	}
-
-	return x / pow
-}
-
-func isHalfway(x float64) bool {
-	_, frac := math.Modf(x)
-	frac = math.Abs(frac)
-	return frac == 0.5 || (math.Nextafter(frac, math.Inf(-1)) < 0.5 && math.Nextafter(frac, math.Inf(1)) > 0.5)
+	return res
 }
